@@ -331,8 +331,14 @@ where
                         } else if let Ok(x) = Constants::from_str(&temp) {
                             tokens.push(Token::Constant(x));
                         } else {
+                            // A run of single letters: each one as if it stood alone
                             for char in temp.chars() {
-                                tokens.push(Token::Variable(char.to_string()));
+                                let letter = char.to_string();
+                                if let Ok(x) = Constants::from_str(&letter) {
+                                    tokens.push(Token::Constant(x));
+                                } else {
+                                    tokens.push(Token::Variable(letter));
+                                }
                             }
                         }
                     }
